@@ -7,6 +7,8 @@ package rux
 // collapse/repair the leading slash).  It shares no code with formatPath /
 // simpleFmtPath / package strings.
 
+import "net/url"
+
 func verifAlphabet(s string, alpha string) bool {
 	ok := true
 	for i := 0; i < len(s); i++ {
@@ -178,6 +180,7 @@ func verifHarness_C11_matchEquiv() {
 
 var verifC11Encoded = [][2]string{ // decoded path, raw (escaped) path
 	{"/a b", "/a%20b"}, {"/a/b", "/a%2Fb"}, {"/x", ""}, {"/é", "/%C3%A9"}, {"/a%b", "/a%25b"},
+	{"/a/b", "/a%2fb"}, {"/é", "/%c3%a9"}, {"/x:y", "/x%3ay"},
 }
 
 // Matching uses the decoded URL path, or the escaped path when UseEncodedPath
@@ -206,4 +209,30 @@ func verifHarness_C11_encodedPath() {
 		verifAssert(ran == "decoded" && seenPath == pair[0], "by default the decoded path is matched")
 	}
 	verifCover("C11 encoded path")
+}
+
+
+// With UseEncodedPath a route registered under an escaped spelling is reached
+// by exactly the requests that carry that spelling: registration, Match and
+// the dispatcher normalise the same way (hex digits of escapes included).
+func verifHarness_C11_encodedSymbolic() {
+	n := verifLen("plen", 1, verifParam("L"))
+	tail := verifString("tail", n)
+	verifAssume(verifAlphabet(tail, "/%2fFaA3"))
+	p := "/" + tail
+	dec, err := url.PathUnescape(p)
+	verifAssume(err == nil)
+	r := New(UseEncodedPath)
+	ran := false
+	k := verifCatch(func() { r.GET(p, func(c *Context) { ran = true }) })
+	verifAssert(k == "", "a path made of letters, slashes and escapes can be registered")
+	req := verifRequest("GET", dec)
+	if dec != p {
+		req.URL.RawPath = p
+	}
+	r.ServeHTTP(verifNewWriter(), req)
+	verifAssert(ran, "the dispatcher reaches the route registered under the request's own escaped spelling")
+	rt, _, _ := r.Match("GET", p)
+	verifAssert(rt != nil, "Match agrees with the dispatcher")
+	verifCover("C11 encoded symbolic")
 }
